@@ -35,6 +35,11 @@ var registry = map[string]reflect.Type{
 	"DEmp":   reflect.TypeOf(fam.DEmp{}),
 	"WBase":  reflect.TypeOf(fam.WBase{}),
 	"Wide":   reflect.TypeOf(fam.Wide{}),
+	"D3":     reflect.TypeOf(fam.D3{}),
+	"D2":     reflect.TypeOf(fam.D2{}),
+	"D1":     reflect.TypeOf(fam.D1{}),
+	"Alias":  reflect.TypeOf(fam.Alias{}),
+	"Alias2": reflect.TypeOf(fam.Alias2{}),
 }
 
 // generated New...WithDefaultValues constructors (they exist only for records that declare a default themselves)
@@ -44,4 +49,7 @@ var constructors = map[string]interface{}{
 	"DElems": fam.NewDElemsWithDefaultValues,
 	"DIn":    fam.NewDInWithDefaultValues,
 	"DEmp":   fam.NewDEmpWithDefaultValues,
+	"D3":     fam.NewD3WithDefaultValues,
+	"D2":     fam.NewD2WithDefaultValues,
+	"D1":     fam.NewD1WithDefaultValues,
 }
